@@ -20,6 +20,13 @@ open Ark Ark.Generated Ark.Generated.Book
     influence: the right-hand sides mention the current list only. -/
 theorem src_removeObserver_aggregates : type_of% @Ark.GenBridge.Book.removeObserver_aggregates_eq :=
   @Ark.GenBridge.Book.removeObserver_aggregates_eq
+/-- **`AddObserver` as in the source** (its tail after the observer was appended): an observer with `With`
+    components is OR-ed into the union of its event type, one without sets the wildcard flag; the same
+    for `For` components unless the event is an entity event; nothing else changes — what the model's
+    `ObsMgr.addComputed` does, on which `AggInv` (the early-outs never suppress an observer that should
+    fire) is proved. -/
+theorem src_addObserver_aggregates : type_of% @Ark.GenBridge.Book.addObserver_aggregates_eq :=
+  @Ark.GenBridge.Book.addObserver_aggregates_eq
 /-- the translated tail, with its loops as list folds -/
 theorem src_removeObserver_aggregates_spec : type_of% @Ark.GenBridge.Book.aggregates_eq_spec :=
   @Ark.GenBridge.Book.aggregates_eq_spec
